@@ -42,6 +42,7 @@ func init() {
 		RuleK2(r, c)
 		RuleK3(r, c)
 		RuleK8(r, c)
+		RuleK21(r, c) // an encoder that refuses a value makes the codec send zeros for it
 		RuleG1(r, p)
 		RuleTransport(r, p, aspectSet{"A2d": true, "RQ": true})
 		RuleFilter(r, p, aspectSet{"F1": true})
@@ -68,6 +69,7 @@ func init() {
 		RuleK3(r, c)
 		RuleK5(r, c)
 		RuleK9(r, c)
+		RuleG1(r, p) // what a reply decodes to is a function of that reply alone: no state is kept between decodes
 		RuleK10(r, p)
 		RuleK10c(r, c)
 		RuleBCD(r, p)
@@ -135,6 +137,7 @@ func init() {
 		RuleK3(r, c)
 		RuleK7(r, c)
 		RuleK9(r, c)
+		RuleK21(r, c) // a value the encoder refuses is sent as zeros: it shares its encoding with the zero value
 		RuleF4(r, p)
 		RuleZone(r, p, c)
 		RuleInstants(r, p)
@@ -193,6 +196,9 @@ func init() {
 		// some number of datagrams (RD)
 		RuleDelivered(r, p, false)
 		RuleF3(r, p) // ... and the broadcast-to loop returns only on a failed read or an accepted datagram
+		// ... on a datagram the send helper will take: the filter accepts exactly the 64-byte replies of the addressed controller
+		RuleFilter(r, p, aspectSet{"F2": true})
+		RuleNoRawDescriptor(r, p)
 		// the listener's goroutines: the consumer ends on every return of Listen (LS3), the driver's two goroutines end after the stop signal (LS6)
 		r.Only = map[string]bool{"LS3": true, "LS6": true}
 		RuleListen(r, p)
@@ -224,6 +230,13 @@ func init() {
 		only := map[string]bool{"GetDevices": true}
 		RuleAPI(r, p, declareAPI(r, []string{"A0", "A2", "A3", "A4", "A6"}, map[string]int{"A0": 0, "A3": 2, "A4": 0}), only)
 		RuleBroadcastHelper(r, p)
+		// every reply received before the timeout: the call collects for exactly the configured timeout, counted from
+		// the moment its reader is running (T2, the collection-window obligation only)
+		r.Only = map[string]bool{"T2": true}
+		r.OnlyConstruct = "collect-window"
+		RuleTransport(r, p, aspectSet{"T2": true})
+		r.Only = nil
+		r.OnlyConstruct = ""
 		RuleDelivered(r, p, false)
 		RuleReadBuffers(r, p)
 		RuleShareIn(r, p, aspectSet{"T8": true, "T7": true}, func(parent string) bool { return returnsListName(p, parent) })
@@ -261,6 +274,9 @@ func init() {
 		RuleInstants(r, p)
 		RuleK10(r, p)
 		RuleAddr(r, p)
+		// what a text/JSON decoder produces is built from the text alone: no reference to a package-level table
+		// becomes part of it (two decodes would share storage)
+		RuleG2(r, p, "")
 		// a date read from JSON is a civil day: parsed outside the local zone only for its civil fields (Z1), and never
 		// left at a local midnight that the zone may not have (Z3)
 		if c := NewCodec(r, p, false); c != nil {
@@ -297,6 +313,7 @@ func init() {
 		RuleImmutable(r, p)
 		RuleAPI(r, p, declareAPI(r, []string{"A0", "A7", "IM1"}, map[string]int{"A7": 32, "IM1": 32, "A0": 0}), nil)
 		RuleK4(r, c)
+		RuleG2(r, p, "") // results never hold a reference to a package-level table (storage shared between calls)
 		RuleTransport(r, p, aspectSet{"T10": true})
 		// the listener's reused receive buffer is handed to the handler synchronously by the read loop (a view of it
 		// that outlives the next read would change under the event being built)
@@ -324,6 +341,7 @@ func init() {
 		RuleK19(r, c)
 		RuleK20(r, c)
 		RuleK9(r, c)
+		RuleK21(r, c)
 		// neither panics: the index, slice, assertion and explicit-panic sites of the codec package itself
 		RulePanicIn(r, p, tier, codecRel, map[string]int{"P1": 5, "P3": 0, "P4": 0})
 		RuleK7(r, c)
